@@ -1048,13 +1048,20 @@ class SysSim(Engine):
 
         def thunk():
             if kind == "to_dict":
-                return dw.convert_to_dict(sys_, type=op.get("type", "numpy"))
+                ty = op.get("type", "numpy")
+                if ty == "numpy" and op.get("dir") == "nested":
+                    return dw.convert_to_dict(sys_)  # documented default form
+                return dw.convert_to_dict(sys_, ty) if op.get("dir") == "existing" else dw.convert_to_dict(sys_, type=ty)
             if kind == "pickle":
                 return dw.export_mfa_to_pickle(sys_, target)
             if kind == "flows_csv":
                 return dw.export_mfa_flows_to_csv(sys_, target)
             if kind == "stocks_csv":
-                return dw.export_mfa_stocks_to_csv(sys_, target, with_in_and_out=bool(op.get("with_io")))
+                if not op.get("with_io") and op.get("dir") != "new":
+                    return dw.export_mfa_stocks_to_csv(sys_, target)  # documented default: stock levels only
+                if op.get("dir") == "existing":
+                    return dw.export_mfa_stocks_to_csv(sys_, target, bool(op.get("with_io")))
+                return dw.export_mfa_stocks_to_csv(mfa=sys_, export_directory=target, with_in_and_out=bool(op.get("with_io")))
             if kind == "to_dfs":
                 return make_definition(st.world).to_dfs()
             raise AssertionError(kind)
